@@ -14,7 +14,7 @@ from ipaddress import (
     ip_network,
 )
 from typing import Protocol
-from urllib.parse import urlparse
+from urllib.parse import unquote, urlparse
 
 
 class Middleware(Protocol):
@@ -336,19 +336,39 @@ class CertificateAuth:
         self.config = config or CertificateAuthConfig()
 
     def _extract_path(self, request_url: str) -> str:
-        """Extract path from a Gemini URL.
+        """Extract the canonical path from a Gemini URL.
+
+        Rules must apply to the resource that is actually served, however the
+        request spells its path, so the path is brought to the form handlers
+        look up: percent-escapes decoded, empty and "." segments dropped and
+        ".." segments resolved (never above "/"). A trailing slash is kept.
 
         Args:
             request_url: The full request URL.
 
         Returns:
-            The path component of the URL, or "/" if none.
+            The canonical path component of the URL, or "/" if none.
         """
         try:
             parsed = urlparse(request_url)
-            return parsed.path or "/"
+            path = unquote(parsed.path or "/")
         except Exception:
             return "/"
+
+        segments: list[str] = []
+        for segment in path.split("/"):
+            if segment in ("", "."):
+                continue
+            if segment == "..":
+                if segments:
+                    segments.pop()
+                continue
+            segments.append(segment)
+
+        canonical = "/" + "/".join(segments)
+        if segments and path.endswith("/"):
+            canonical += "/"
+        return canonical
 
     def _find_matching_rule(self, path: str) -> CertificateAuthPathRule | None:
         """Find the first matching path rule.
@@ -360,7 +380,9 @@ class CertificateAuth:
             The first matching rule, or None if no rule matches.
         """
         for rule in self.config.path_rules:
-            if path.startswith(rule.prefix):
+            # "/dir" names the same resource as "/dir/" when it is a directory,
+            # so a rule for "/dir/" must cover it as well
+            if path.startswith(rule.prefix) or (path + "/").startswith(rule.prefix):
                 return rule
         return None
 
